@@ -551,6 +551,60 @@ def i_pointwise(F, res):
 _KEEP = []
 
 
+ACCESSOR_SPEC = {
+    # accessor -> {variant: index of the payload field it hands out, or None}
+    "policy": {"Naked": None, "Named": None, "Defined": "0"},
+    "name": {"Naked": None, "Named": "0", "Defined": "1"},
+}
+
+
+def i_accessor(F, res):
+    """I-ACCESSOR: the two read accessors of an asset class - the only way the rest of the workspace (the conversion of a value
+    back into IR asset expressions in particular) learns the policy and the name - return, variant by variant, what the class
+    holds: `policy()` is `Some(field 0)` for Defined and None otherwise, `name()` is `Some(field 0)` for Named, `Some(field 1)`
+    for Defined and None for Naked.  Decided by following the match on self under each variant (E16)."""
+    AC = "tx3_tir::model::assets::AssetClass"
+    adt = F.adts.get(AC)
+    if adt is None or {v["name"] for v in adt["variants"]} != {"Naked", "Named", "Defined"}:
+        res.add([assumption("I-ACCESSOR", AC + "|accessors", "crates/tx3-tir/src/model/assets.rs", "AssetClass no longer has the variants Naked / Named / Defined: not decided")])
+        return
+    vbn = {v["name"]: v["discr"] for v in adt["variants"]}
+    for acc, spec in ACCESSOR_SPEC.items():
+        f = F.fns.get("%s::%s" % (AC, acc))
+        key = "%s::%s|per-variant result" % (AC, acc)
+        if f is None:
+            res.add([assumption("I-ACCESSOR", key, "crates/tx3-tir/src/model/assets.rs", "accessor not found under this name: not decided")])
+            continue
+        du = mir.DefUse(f)
+        bad = []
+        for vname, want in spec.items():
+            reach = mir.reach_under_variants(f, {1: vname}, AC, vbn, F=F)
+            got = set()
+            for bi, si, st in mir.stmts(f):
+                rv = st["rv"]
+                if bi in reach and st["lhs"]["l"] == 0 and not st["lhs"]["p"] and rv["k"] == "agg" and rv.get("adt", "").endswith("::Option"):
+                    if rv["variant"] == "None":
+                        got.add(None)
+                    else:
+                        idx = "?"
+                        for o in mir.provenance(f, du, rv["ops"][0], transparent_extra=("std::ops::Deref::deref", "std::vec::Vec::<T, A>::as_slice", "std::convert::AsRef::as_ref", "std::borrow::Borrow::borrow")):
+                            if o.kind == "arg" and o.local == 1:
+                                nums = [p_[1:] for p_ in o.proj if p_[:1] == "." and p_[1:].isdigit()]
+                                idx = nums[-1] if nums else "?"
+                        got.add(idx)
+            if not got:
+                bad = None
+                break
+            if got != {want}:
+                bad.append("%s: returns %s where the class holds %s" % (vname, sorted("None" if g is None else "field " + g for g in got), "nothing of the kind" if want is None else "field " + want))
+        if bad is None:
+            res.add([assumption("I-ACCESSOR", key, where(f), "the accessor is not a match on self with Some(..) / None arms: not decided")])
+        elif bad:
+            res.add([finding("I-ACCESSOR", key, where(f), "AssetClass::%s() - %s: a class loses (or swaps) its %s when a value is turned back into asset expressions" % (acc, "; ".join(bad), acc))])
+        else:
+            res.add([ok("I-ACCESSOR", key, where(f), "Naked / Named / Defined -> " + ", ".join("%s" % ("None" if spec[v] is None else "field " + spec[v]) for v in ("Naked", "Named", "Defined")))])
+
+
 def order_home(F, res):
     """C-HOME: the entry-wise order on asset values is decided in one place.  Outside model/assets.rs no function of the
     workspace walks the entries of a CanonicalAssets *and* compares two amounts with each other (a comparison of two non-literal
@@ -623,6 +677,8 @@ def run(ctx):
     i_class(F, res)
     c_order(F, res)
     i_pointwise(F, res)
+    res.rule("I-ACCESSOR", "AssetClass::policy() / name() return, variant by variant, what the class holds")
+    i_accessor(F, res)
     res.rule("C-HOME", "outside the asset module nobody walks the entries of an asset value to compare amounts")
     order_home(F, res)
     if ctx.tier == "thorough":
